@@ -30,7 +30,6 @@ TRUSTED_BASE = [
 ]
 ASSUMPTIONS = ["inputs are valid Clifford tableaux of pure states"]
 
-KEY_D42 = "fidelity:inverse_circuit-incomplete-synthesis"
 LEAN_SPEC_MAX_N = 3  # the brute-force executable specification enumerates 2^n x 2^n products
 
 
@@ -174,15 +173,14 @@ def flush(res, drv, pending):
             if r_shape["_status"] != "ok" or r_shape.get("canon") != "1":
                 # the proved postcondition of the model (canonical_form_returns_canon) does not hold of the real result
                 res.exact_break("stab.iscanon", input=inp, impl=su.stab_args(ca), model=r_shape["_raw"][:200])
+        for r_i in (r_ia, r_ib):
+            if r_i["_status"] != "ok" or r_i.get("zero") != "1":
+                # the model's synthesis did not return |0..0> on a valid state: contradicts `C11.inverse_circuit_complete`
+                res.exact_break("stab.inv:model-not-zero", input=inp, impl="valid state", model=r_i["_raw"][:600])
         if fails:
-            d42 = any(r["_status"] == "ok" and r.get("zero") == "0" for r in (r_ia, r_ib))
-            if d42:
-                res.count("errors", "D42:incomplete-synthesis")
-                res.violation(KEY_D42, "fidelity is wrong because inverse_circuit's synthesis does not reach |0..0> on one argument (model reproduces): "
-                              + "; ".join(f[1] for f in fails), input=inp)
-            else:
-                for key, clause in fails:
-                    res.violation(key, clause, input=inp)
+            # D42 (repaired in graphiq 74abae4) used to be routed to a known finding here; every failure is an ordinary violation
+            for key, clause in fails:
+                res.violation(key, clause, input=inp)
         else:
             res.traces_validated += 1
     pending.clear()
@@ -200,6 +198,7 @@ def flip_sign(t, rng):
     return u
 
 
+# regression input: the witness of D42 (repaired in graphiq 74abae4); fidelity with itself was 0.5 before the repair
 D42_WITNESS = "n=5 x=1011001100000010000000000 z=0010000011001101001001110 r=11010"
 
 
@@ -211,7 +210,7 @@ def run(ctx, budget=1.0):
     drv = Driver()
     rng = ctx.rng
     pending = []
-    # corpus: D42 witness against itself (re-gauged)
+    # corpus: the witness of the repaired D42 against itself (re-gauged); must pass like any other pair
     from graphiq.backends.stabilizer.functions.rep_conversion import clifford_from_stabilizer  # noqa: F401
     from harness.c11 import stab_of_args
 
